@@ -149,15 +149,15 @@ func runC19(c *Ctx) {
 		c.Explore(c19Scenario(c19Case{kind: kind, limit: 1, callers: 3}), mc.Options{PreemptBound: c.Pick(2, 3)})
 		c.Explore(c19Scenario(c19Case{kind: kind, limit: 2, callers: 3}), mc.Options{PreemptBound: c.Pick(2, 3)})
 		// holders keep their tokens for 300 ms of virtual time (three generations fit into the 1 s timeout)
-		c.Explore(c19Scenario(c19Case{kind: kind, limit: 1, callers: 3, hold: 300 * time.Millisecond}), mc.Options{PreemptBound: c.Pick(2, 3)})
+		c.Explore(c19Scenario(c19Case{kind: kind, limit: 1, callers: 3, hold: 300 * time.Millisecond}), mc.Options{PreemptBound: 2})
 		// exactly as many callers as limit + backlog: nobody may be turned away
-		c.Explore(c19Scenario(c19Case{kind: kind, limit: 1, callers: 3, backlog: 2}), mc.Options{PreemptBound: c.Pick(2, 3)})
+		c.Explore(c19Scenario(c19Case{kind: kind, limit: 1, callers: 3, backlog: 2}), mc.Options{PreemptBound: 2})
 		// a queued caller's timeout fires while it is being handed a token: the callers behind it must
 		// still be served
-		c.Explore(c19Scenario(c19Case{kind: kind, limit: 1, callers: 3, eager: true}), mc.Options{PreemptBound: c.Pick(2, 3)})
+		c.ExploreBig(c19Scenario(c19Case{kind: kind, limit: 1, callers: 3, eager: true}), mc.Options{PreemptBound: 2})
 		if c.Thorough() {
 			c.ExploreBig(c19Scenario(c19Case{kind: kind, limit: 2, callers: 4}), mc.Options{PreemptBound: 2})
-			c.Explore(c19Scenario(c19Case{kind: kind, limit: 2, callers: 4, backlog: 2, hold: 300 * time.Millisecond}), mc.Options{PreemptBound: 2})
+			c.ExploreBig(c19Scenario(c19Case{kind: kind, limit: 2, callers: 4, backlog: 2, hold: 300 * time.Millisecond}), mc.Options{PreemptBound: 1})
 		}
 	}
 }
